@@ -5,9 +5,15 @@ using namespace vf;
 static const lib::Registry* REG;
 static void setup() { Case c; c.set("phase", "setup"); set_current(c); deps::inject(0); REG = &lib::Registry::get(); }
 
-struct Bounds { size_t enc_internal = 0, output = 0, dec_internal = 0; size_t sep_out = 1; std::vector<int> order; size_t maxw = 0; };
+struct Bounds { size_t enc_internal = 0, output = 0, dec_internal = 0; size_t sep_out = 1; std::vector<int> order, order_c; size_t maxw = 0; };
 // per-position maxima over the admissible index sets (all indices; even indices only in word 3; check word unconstrained)
-static bool bounds_of(const lib::LangEntry& le, Bounds& b, std::string* why) {
+static bool bounds_of_uncached(const lib::LangEntry& le, Bounds& b, std::string* why);
+static bool bounds_of(const lib::LangEntry& le, Bounds& b, std::string* why) {   /* computed once per language and process */
+    static std::map<const polyseed_lang*, std::pair<bool, Bounds>> cache; static std::map<const polyseed_lang*, std::string> whys; auto it = cache.find(le.lang);
+    if (it == cache.end()) { Bounds nb; std::string w; bool ok = bounds_of_uncached(le, nb, &w); it = cache.emplace(le.lang, std::make_pair(ok, nb)).first; whys[le.lang] = w; }
+    b = it->second.second; *why = whys[le.lang]; return it->second.first;
+}
+static bool bounds_of_uncached(const lib::LangEntry& le, Bounds& b, std::string* why) {
     const lib::LibWords& lw = lib::lib_words(le); if (!lw.ok) { *why = lw.why; return false; }
     // separator as it appears in the output: the bytes between the first two words of the zero-seed phrase
     polyseed_data* z = lib::zero_seed(); if (!z) { *why = "no zero seed"; return false; } std::string ph = lib::encode(z, le.lang, 0); polyseed_free(z);
@@ -20,6 +26,7 @@ static bool bounds_of(const lib::LangEntry& le, Bounds& b, std::string* why) {
     b.dec_internal = 15 * mx_d + ev_d + 15;                   // NFKD of the output: separators become single spaces
     b.maxw = mx_d; b.order.resize(2048); for (int i = 0; i < 2048; i++) b.order[i] = i;
     std::stable_sort(b.order.begin(), b.order.end(), [&](int x, int y) { return lw.w[x].size() > lw.w[y].size(); });
+    { std::vector<size_t> cl(2048); for (int i = 0; i < 2048; i++) cl[i] = model::nfc(lw.w[i]).size(); b.order_c = b.order; std::stable_sort(b.order_c.begin(), b.order_c.end(), [&](int x, int y) { return cl[x] > cl[y]; }); }   /* longest in the composed output form */
     return true;
 }
 
@@ -50,9 +57,15 @@ static std::string oracle(const Case& c) {
     if (k.truncated) return "the phrase had to be truncated by the normaliser when fed back to the decoder" + lens;
     if (st != 0) return std::string("the extremal phrase decodes to ") + model::status_name(st) + lens;
     if (img != lib::store(s)) return "the extremal phrase decodes to a different seed";
+    { // the decomposed form of the same phrase (what a user's input method may deliver, and what the library handles internally) must be accepted as well
+        std::string dn = model::nfkd(out); k.truncated = false; lib::Image i2; int s2 = lib::decode_x(dn, coin, le->lang, &i2);
+        if (k.truncated) return "the decomposed form of the phrase had to be truncated by the normaliser" + lens;
+        if (s2 != 0 || i2 != img) return std::string("the decomposed form of the extremal phrase (") + std::to_string(dn.size()) + " bytes) decodes to " + model::status_name(s2) + lens;
+        const polyseed_lang* lo = nullptr; lib::Image i3; int s3 = lib::decode_auto(out, coin, &lo, &i3); if (s3 != 0 && s3 != model::MULT_LANG) return std::string("automatic decoding of the extremal phrase returns ") + model::status_name(s3) + lens;
+    }
     size_t worst = std::max(b.enc_internal, std::max(b.output, b.dec_internal)); size_t mine = std::max(enc_internal, std::max(out.size(), dec_internal));
     ev.eval(); ev.count("witness:" + le->name_en); if (mine * 10 >= worst * 9) { ev.nt(c); ev.count("witness>=90%-of-bound"); ev.sample("witness:" + le->name_en, c); } else ev.count("trivial");
-    if (mine + 1 >= worst) ev.count("witness-attains-bound");
+    if (mine + 1 >= worst) ev.count("witness-attains-bound"); if (out.size() >= 360) ev.count("composed-output>=360-bytes"); if (dec_internal >= 500) ev.count("decomposed>=500-bytes");
     return "";
 }
 
@@ -84,11 +97,11 @@ static void run() {
             W().ev.count("exact-bound-witness:" + REG->at(li).name_en);
         }
     }
-    rc_run("c17-witnesses", a.n(3000, 200000), 100, [&]() {
+    rc_run("c17-witnesses", a.n(40000, 400000), 100, [&]() {
         const lib::LangEntry& le = REG->at(*g::lang_index()); Bounds b; std::string why; RC_PRE(bounds_of(le, b, &why));
-        int topk = *rc::gen::element(1, 2, 3, 6, 12, 40); std::array<unsigned, 16> shown{};
-        for (int i = 1; i < 16; i++) shown[i] = (unsigned)b.order[*in_range<int>(0, topk)];
-        if (shown[2] & 1) { for (int j = 0; j < 2048; j++) if (!(b.order[j] & 1)) { shown[2] = (unsigned)b.order[j]; break; } }
+        int topk = *rc::gen::element(1, 2, 3, 6, 12, 40); std::array<unsigned, 16> shown{}; const std::vector<int>& ord = *in_range<int>(0, 2) ? b.order : b.order_c;   /* longest decomposed or longest composed words */
+        for (int i = 1; i < 16; i++) shown[i] = (unsigned)ord[*in_range<int>(0, topk)];
+        if (shown[2] & 1) { for (int j = 0; j < 2048; j++) if (!(ord[j] & 1)) { shown[2] = (unsigned)ord[j]; break; } }
         Case c; c.set("kind", "witness"); c.set("lang", le.name_en); c.set("coin", (uint64_t)*g::coin()); c.set("shown", shown_hex(shown)); set_current(c);
         std::string m = oracle(c); if (!m.empty()) VF_FAIL(c, m);
     });
